@@ -11,8 +11,8 @@ import z3
 from pyvc import prims
 from pyvc.contract import Outcome, Spec
 from pyvc.engine import RaiseSig, Unsupported, bytes_num, num_to_bytes
-from pyvc.ground import All
-from pyvc.values import (B, I, NONE, Obj, VBool, VBytes, VExc, VInt, VNone, VOpaque, VRef, VTuple,
+from pyvc.ground import All, FAnd, FOr
+from pyvc.values import (B, I, NONE, Obj, VBool, VBytes, VExc, VInt, VNone, VOpaque, VRef, VStr, VTuple,
                          fresh_name)
 
 from .common import POSKeyError, inst
@@ -39,6 +39,12 @@ def tidtree_method(c, interp, ref, o, name, args, kwargs, node):
         a = list(args) + [NONE] * (2 - len(args))
         b = [None if isinstance(x, VNone) else bytes_num(c, x, node) for x in a[:2]]
         return c.new_obj('keyrange', None, {}, {'tree': o, 'lo': b[0], 'hi': b[1]})
+    if name in ('maxKey', 'minKey') and not args:
+        whole = c.new_obj('keyrange', None, {}, {'tree': o, 'lo': None, 'hi': None})
+        try:
+            return keyrange_getitem(c, whole, c.obj(whole), VInt(-1 if name == 'maxKey' else 0), node)
+        except RaiseSig:
+            raise RaiseSig(VExc('builtins:ValueError'))
     raise Unsupported('BTree.%s' % name, node)
 
 
@@ -173,3 +179,85 @@ class MappingLoadBefore(Spec):
 
 SPECS = [MappingLoadBefore]
 INLINE = ['ZODB.utils:p64', 'ZODB.utils:u64', MS + '.opened']
+
+
+class MappingStore(Spec):
+    """MappingStorage.store (C03): accepted only for the transaction in progress and only if the object has no
+    revision yet or the caller's serial IS the tid of its newest revision; otherwise ConflictError (naming the
+    newest tid and the caller's serial) and nothing is staged."""
+    func = MS + '.store'
+    props = ('C03',)
+    assumptions = tuple(ASSUMPTIONS)
+    cases = ('same', 'other')
+
+    def setup(self, c, case=None):
+        n = fresh_name('revs')
+        tree = c.new_obj('tidtree', None, {'dom': z3.Array('dom_' + n, I, B), 'val': z3.Array('val_' + n, I, I)},
+                         {'name': 'revisions-of-the-oid'})
+        c.roles.array(c.obj(tree).f['dom'], 'tid')
+        data = c.new_obj('oidmap', None, {}, {'tree_ref': tree, 'name': '_data'})
+        lock = prims.new_lock(c, 'MappingStorage._lock', reentrant=True, held=0)
+        tdata = prims.new_map(c, 'bytes8', 'opaque', '_tdata')
+        txn = c.fresh_opaque('transaction')
+        me = inst(c, MS, _data=data, _lock=lock, _opened=VBool(True), _tdata=tdata, _transaction=txn)
+        t = txn if case == 'same' else c.fresh_opaque('other_transaction')
+        if case == 'other':
+            c.assume(t.t != txn.t)
+        c.ghost['ms'] = {'tree': tree, 'lock': lock, 'tdata': tdata}
+        ser = c.fresh_bytes(8, 'serial')
+        c.roles.seed('tid', bytes_num(c, ser))
+        return {'self': me, 'oid': c.fresh_bytes(8, 'oid'), 'serial': ser, 'data': c.fresh_opaque('data'),
+                'version': VStr(''), 'transaction': t}
+
+    def modifies(self, c, E):
+        g = c.ghost['ms']
+        return {(g['tdata'].id, 'dom'), (g['tdata'].id, 'val')}
+
+    def outcomes(self, c, E):
+        g = c.ghost['ms']
+        dom = c.obj(g['tree']).f['dom']
+        has = lambda t: z3.And(z3.Select(dom, t), t >= 0, t < 2 ** 64)
+        ser = bytes_num(c, E['serial'])
+        o = bytes_num(c, E['oid'])
+        td0 = dict(c.obj(g['tdata']).f)
+        same = E['transaction'] is c.obj(E['self']).f['_transaction']
+        unknown = lambda cc: any(e[0] == 'oid-unknown' for e in cc.events)
+
+        def staged(cc, E, r):
+            td = cc.obj(g['tdata']).f
+            out = [('data-staged-under-the-oid', z3.And(z3.Select(td['dom'], o), z3.Select(td['val'], o) == E['data'].t)),
+                   ('other-staged-entries-untouched', All(['oid'], lambda q: z3.Implies(q != o, z3.And(
+                       z3.Select(td['dom'], q) == z3.Select(td0['dom'], q),
+                       z3.Select(td['val'], q) == z3.Select(td0['val'], q))))),
+                   ('lock-released', cc.obj(g['lock']).f['held'] == 0)]
+            if not unknown(cc):
+                out.append(('accepted-only-if-new-or-the-serial-is-the-newest-tid', FOr(
+                    All(['tid'], lambda t: z3.Not(has(t))),
+                    FAnd(has(ser), All(['tid'], lambda t: z3.Implies(has(t), t <= ser))))))
+            return out
+
+        def untouched(cc, E, x):
+            td = cc.obj(g['tdata']).f
+            return [('nothing-staged', z3.And(td['dom'] == td0['dom'], td['val'] == td0['val'])),
+                    ('lock-released', cc.obj(g['lock']).f['held'] == 0)]
+
+        def conflict(cc, E, x):
+            a = x.attrs if isinstance(x, VExc) else {}
+            sers = a.get('serials')
+            ok = isinstance(sers, VTuple) and len(sers.items) == 2 and isinstance(sers.items[0], VBytes)
+            out = untouched(cc, E, x) + [('oid-is-known', not unknown(cc)),
+                                         ('conflict-error-names-(newest tid, caller serial)', ok)]
+            if ok:
+                m = bytes_num(cc, sers.items[0])
+                cc.roles.seed('tid', m)
+                out += [('newest-tid-differs-from-the-callers-serial', z3.And(has(m), m != ser)),
+                        ('newest-tid-differs-from-the-callers-serial.newest', All(
+                            ['tid'], lambda t: z3.Implies(has(t), t <= m)))]
+            return out
+        if not same:
+            return [Outcome('wrong-transaction', 'raise', 'ZODB.POSException:StorageTransactionError', post=untouched)]
+        return [Outcome('staged', result=lambda cc, E: NONE, post=staged),
+                Outcome('conflict', 'raise', 'ZODB.POSException:ConflictError', post=conflict)]
+
+
+SPECS.append(MappingStore)
